@@ -77,7 +77,7 @@ CHECKS.update({
              "never a record under an odd/zero generation or version 0, never an error; (ii) write from ANY start generation (odd included) ends even/non-zero with the record complete (C11); (iii) "
              "ShmWriter::new wipes iff the usability probe failed, otherwise takes the segment over in place (generation, record, magic, size untouched, version 1, pointers at 12/14/16); (iv) ShmReader::new "
              "rejects files with version 0 / generation 0 / short header (new clients attach only after the first publication) - on a POSIX model linked into the run.",
-        note="States, not schedules (interleavings are C02). POSIX model and the three file-system stubs of ShmWriter::new are assumed contracts; wipe's byte output is unverified.",
+        note="States, not schedules (interleavings are C02). POSIX model and the three file-system stubs of ShmWriter::new are assumed contracts; wipe's bytes and whole crash/restart histories with an attached client are covered only by the bounded native stand-in (real code on the real file system, not counted as proved).",
         technique="Kani full-domain harnesses on the real reader/writer code; C POSIX model linked via c-ffi; contract stubs for file-system functions",
         design_ref="DESIGN.md section 4, C04"),
 
@@ -177,7 +177,7 @@ CHECKS.update({
         text="The ppm->ppb statement of main(), cut verbatim from main.rs on every run and wrapped as a function, is proved for every Option<u32>: None -> 1000; Some(r) -> exactly 1000*r when "
              "representable, otherwise the statement leaves main with Err; no arithmetic overflow on any path. ShmUpdater::new/step contracts prove the value is copied verbatim into every record. "
              "Found and fixed F-C19 (u32 wrap in the release build).",
-        note="Kani/CBMC sound; format! stubbed on the refusal path; plumbing main -> thread_manager::run -> shm_writer::run -> ShmUpdater::new is unverified glue (a u32 passed by value).",
+        note="Kani/CBMC sound; format! stubbed on the refusal path; shm_writer::run hands the rate to ShmUpdater::new unchanged (C19.run.*); the clap parser in the release profile is covered by a bounded native stand-in (not counted as proved).",
         technique="Kani full-domain harness on a mechanically extracted statement + updater step contracts",
         design_ref="DESIGN.md section 4, C19"),
 })
